@@ -88,6 +88,20 @@ func genC05ecdsa(c *Ctx) {
 				o := append([]byte{byte(pre)}, comp[1:]...)
 				c.Case("ecdsa-pkc-prefix", fmt.Sprintf("ecdsa pkdecc %s %s", cv.name, hx(o)), decPubCompressed(cv.algo, o))
 			}
+			// format confusion: other SEC1 / X9.62 forms of the same valid point handed to each decoder
+			// (uncompressed 04||X||Y, hybrid 06/07||X||Y with right and wrong parity, raw X||Y to the compressed decoder,
+			// the compressed form to the raw decoder, each also padded or truncated by one byte)
+			for _, pre := range []byte{0x00, 0x02, 0x03, 0x04, 0x05, 0x06, 0x07} {
+				o := append([]byte{pre}, raw...)
+				c.Case("ecdsa-pkc-sec1-form", fmt.Sprintf("ecdsa pkdecc %s %s", cv.name, hx(o)), decPubCompressed(cv.algo, o))
+				c.Case("ecdsa-pk-sec1-form", fmt.Sprintf("ecdsa pkdec %s %s", cv.name, hx(o)), decPub(cv.algo, o))
+			}
+			for _, o := range [][]byte{raw, raw[:63], append(append([]byte{}, raw...), 0), comp[:32], append(append([]byte{}, comp...), 0), append(append([]byte{}, comp...), raw[32:]...)} {
+				c.Case("ecdsa-pkc-other-form", fmt.Sprintf("ecdsa pkdecc %s %s", cv.name, hx(o)), decPubCompressed(cv.algo, o))
+			}
+			for _, o := range [][]byte{comp, append(append([]byte{}, comp...), make([]byte, 31)...), append(make([]byte, 31), comp...)} {
+				c.Case("ecdsa-pk-other-form", fmt.Sprintf("ecdsa pkdec %s %s", cv.name, hx(o)), decPub(cv.algo, o))
+			}
 			// x + p, y + p twins (when they fit), y negated, swapped
 			x := new(big.Int).SetBytes(raw[:32])
 			y := new(big.Int).SetBytes(raw[32:])
